@@ -169,7 +169,28 @@ def spectral_dim_tests(repo, rep):
     rep.floor("R-C20-16", "tests for the presence of a spectral dimension", n, 3)
 
 
+def static_locals(repo, rep, rule):
+    """A function-scope `static` object in specpart.c outlives the call that sized it: a buffer allocated `if (p == NULL)` keeps the extent of
+    the FIRST grid the process partitioned while every later call indexes it with its own nspec (the file-scope work arrays are re-sized
+    by partinit on a shape change; nothing re-sizes a static local)."""
+    cf = cnative.core(repo)
+    n_ = 0
+    for fname, fn in cf.funcs.items():
+        for n in cf.walk(fn):
+            if n.get("kind") == "VarDecl":
+                n_ += 1
+                if n.get("storageClass") == "static":
+                    rep.fail(rule, SPECPART_C, cf.line(n), fname, f"static {n.get('type', {}).get('qualType', '')} {n.get('name')}",
+                             "function-static object: its extent / contents are those of an earlier call with possibly another grid shape; indexing it with this "
+                             "call's nspec reads and writes outside the block (heap overflow when a larger grid follows a smaller one)",
+                             anchor=f"static-local:{fname}:{n.get('name')}")
+    rep.floor(rule, "local declarations in specpart.c", n_, 20)
+    rep.ok(rule, SPECPART_C, f"{n_} local declarations", "none has static storage: every per-call buffer is sized by this call")
+
+
 def run(repo, rep, tier):
+    rep.rule("R-C20-19", "no function-scope static object in specpart.c: per-call buffers are sized by the call that uses them")
+    static_locals(repo, rep, "R-C20-19")
     spectral_dim_tests(repo, rep)
     rep.rule("R-C20-14", "(shared with C07) the wrapper holds the GIL for the whole native call: released, two threads interleave inside partition() "
                          "over the same static work buffers - reads and writes outside what each call initialised, or a concurrent free / malloc")
@@ -240,7 +261,75 @@ def _rank_ge1(e, fi, depth=0):
     return False
 
 
+def more_python_lints(repo, rep):
+    """R-C20-17 / R-C20-18 / R-C20-19 (round 5)."""
+    from ..astutil import known_facts
+    rep.rule("R-C20-17", "an attribute looked up by a caller-supplied name (getattr) is called only after a callable() test that rejects it with ValueError, "
+                         "and the lookup itself turns AttributeError into ValueError")
+    fi = repo.func("wavespectra.specarray.SpecArray.stats")
+    n17 = 0
+    getattr_names = {}
+    for a in ast.walk(fi.node):
+        if isinstance(a, ast.Assign) and isinstance(a.value, ast.Call) and call_name(a.value) == "getattr" and len(a.value.args) == 2 and isinstance(a.targets[0], ast.Name):
+            getattr_names[a.targets[0].id] = a
+    for c in ast.walk(fi.node):
+        if not isinstance(c, ast.Call):
+            continue
+        f = c.func
+        direct = isinstance(f, ast.Call) and call_name(f) == "getattr" and len(f.args) == 2
+        via = isinstance(f, ast.Name) and f.id in getattr_names
+        if not (direct or via):
+            continue
+        n17 += 1
+        facts = known_facts(fi.node, c)
+        nm = f.id if via else None
+        if via and f"callable({nm})" in facts:
+            # the else side must raise ValueError
+            gs_ = [x for x in ast.walk(fi.node) if isinstance(x, ast.If) and f"callable({nm})" in unparse(x.test).replace(" ", "")]
+            g = gs_[0] if gs_ else None
+            other = (g.orelse if g is not None and any(x is c for b in g.body for x in ast.walk(b)) else g.body) if g is not None else []
+            rz = [r for b in other for r in ast.walk(b) if isinstance(r, ast.Raise)]
+            exc_ok = bool(rz) and all((unparse(r.exc.func) if isinstance(r.exc, ast.Call) else unparse(r.exc)) == "ValueError" for r in rz if r.exc is not None)
+            if exc_ok:
+                rep.ok("R-C20-17", f"{fi.file}:{c.lineno} stats", unparse(c)[:70], f"called under callable({nm}); non-callable attributes raise ValueError")
+                continue
+        rep.fail("R-C20-17", fi.file, c.lineno, fi.qualname, unparse(c)[:100],
+                 "the attribute named by the caller is called without a callable() test: a name such as 'dd', 'df', 'freq' or 'partition' (valid attributes, "
+                 "not statistics) escapes as TypeError instead of being rejected with ValueError", anchor="stats:callable-guard")
+    rep.floor("R-C20-17", "calls of caller-named attributes in SpecArray.stats", n17, 1)
+    rep.rule("R-C20-18", "an element of np.diff(x) / np.unique(x) / a list built from them is subscripted only under a test of its length: a one-bin axis "
+                         "gives an empty difference")
+    n18 = 0
+    for q in ("wavespectra.core.utils", "wavespectra.specarray", "wavespectra.core.npstats", "wavespectra.core.xrstats", "wavespectra.partition.partition"):
+        for fi2 in repo.module(q).all_funcs():
+            defs = {}
+            for a in ast.walk(fi2.node):
+                if isinstance(a, ast.Assign) and len(a.targets) == 1 and isinstance(a.targets[0], ast.Name) \
+                        and any(isinstance(x, ast.Call) and call_name(x).split(".")[-1] == "diff" for x in ast.walk(a.value)) \
+                        and not any(isinstance(x, ast.Call) and isinstance(x.func, ast.Attribute) and x.func.attr in ("sum", "mean", "max", "min", "all", "any") for x in ast.walk(a.value)):
+                    defs[a.targets[0].id] = a
+            for sub in ast.walk(fi2.node):
+                if isinstance(sub, ast.Subscript) and isinstance(sub.value, ast.Name) and sub.value.id in defs and isinstance(sub.ctx, ast.Load) \
+                        and isinstance(sub.slice, ast.Constant) and isinstance(sub.slice.value, int) and sub.lineno > defs[sub.value.id].lineno:
+                    nm = sub.value.id
+                    stores = [x for x in ast.walk(fi2.node) if isinstance(x, ast.Name) and x.id == nm and isinstance(x.ctx, ast.Store)]
+                    if len(stores) > 1 and not any(isinstance(getattr(x, "_parent", None), ast.Assign) and getattr(x, "_parent") is defs[nm] for x in stores):
+                        continue
+                    n18 += 1
+                    facts = known_facts(fi2.node, sub)
+                    lens = (f"len({nm})", f"{nm}.size", f"np.size({nm})")
+                    guarded = any(any(l_ in g for l_ in lens) for g in facts) or any(g in (nm, f"{nm}.size") for g in facts)
+                    if guarded:
+                        rep.ok("R-C20-18", f"{fi2.file}:{sub.lineno} {fi2.short}", unparse(sub), "under a test of the number of differences")
+                    else:
+                        rep.fail("R-C20-18", fi2.file, sub.lineno, fi2.qualname, unparse(sub),
+                                 f"'{nm}' holds the differences of an axis: for a spectrum with a single bin on that axis it is empty and this subscript raises "
+                                 "IndexError (valid one-direction / one-frequency spectra crash)", anchor=f"diff-subscript:{fi2.short}:{nm}")
+    rep.floor("R-C20-18", "subscripted difference vectors", n18, 1)
+
+
 def python_lints(repo, rep):
+    more_python_lints(repo, rep)
     rep.rule("R-C20-1", "no subscript is applied to an int-valued attribute (.size, .ndim, len(...))")
     rep.rule("R-C20-2", "float()/int() is never applied to an expression that is certainly an array of rank >= 1")
     rep.rule("R-C20-3", "argument validation raises ValueError (not assert / other types) and the test dominates the "
